@@ -8,7 +8,7 @@
   function, or math/rand output flows anywhere but the "grease-%x" stanza type.
 -/
 import AgeModel.Extracted.RandUse
-import Proofs.GoTieMisc
+import Proofs.GoTieNonce
 import Proofs.GoTieEncrypt
 namespace AgeModel
 namespace Tie.C06
